@@ -157,4 +157,28 @@ theorem C18_index_determined (r : Repo) (mrOf : Hdr → Option H) (p p' : MProof
   have a2 : (p'.index.toNat : Int) = p'.index := Int.toNat_of_nonneg h1'
   omega
 
+/-- **C18 (altering a path element makes it fail).** Two verifying proofs about the same header
+    with the same index, the same duplicate markers and paths of the same length have the same
+    transaction id and the SAME path: replacing any sibling hash of a valid proof yields a proof
+    that does not verify. -/
+theorem C18_path_determined (r : Repo) (mrOf : Hdr → Option H) (p p' : MProof) (h h' : Int) (f f' : Bool)
+    (hidx : p'.index = p.index) (hdups : p'.core.dups = p.core.dups)
+    (hlen : p'.core.path.length = p.core.path.length)
+    (hhdr : p'.header = p.header) (hbh : p'.blockHash = p.blockHash)
+    (hv : verifyMerkleProof r mrOf p = .ok (h, f)) (hv' : verifyMerkleProof r mrOf p' = .ok (h', f')) :
+    p'.core.txid = p.core.txid ∧ p'.core.path = p.core.path := by
+  obtain ⟨hd, root, hl, _, _, hc, hm⟩ := C18_sound r mrOf p h f hv
+  obtain ⟨hd', root', hl', _, _, hc', hm'⟩ := C18_sound r mrOf p' h' f' hv'
+  have hsame : locate r p' = locate r p := by unfold locate; rw [hhdr, hbh]
+  rw [hsame, hl] at hl'
+  simp only [Except.ok.injEq, Prod.mk.injEq] at hl'
+  obtain ⟨rfl, _, _⟩ := hl'
+  rw [hm] at hm'
+  simp only [Option.some.injEq] at hm'
+  subst hm'
+  unfold Merkle.Proof.calculateRoot Merkle.calcLoop at hc hc'
+  simp only [hidx, hdups] at hc'
+  rw [hlen] at hc'
+  exact Merkle.calcGo_root_determines_path _ _ _ _ _ _ _ _ _ hlen (by omega) hc' hc
+
 end BRV.Repo
